@@ -14,11 +14,13 @@ from concurrent.futures import ThreadPoolExecutor
 from ..core import Check, MachineryFailure
 from .. import tlc, graph
 
-INV = ["TracesClosedInv", "PairSums", "Frame", "UpdateIdempotent", "NonNegative", "SameStepDrive", "Deterministic", "Exact"]
+INV = ["TracesClosedInv", "PairSums", "Frame", "UpdateIdempotent", "NonNegative", "SameStepDrive", "Deterministic", "Exact",
+       "BoxInv"]
 
 
-def consts(recipe, steps, other, lrpost=1, lrpre=2, ref=1):
-    return dict(Recipe=recipe, S=16384, T=16, RefSteps=ref, LrPost=lrpost, LrPre=lrpre, MaxSteps=steps, MaxOther=other)
+def consts(recipe, steps, other, lrpost=1, lrpre=2, ref=1, clamp="none"):
+    return dict(Recipe=recipe, S=16384, T=16, RefSteps=ref, LrPost=lrpost, LrPre=lrpre, MaxSteps=steps, MaxOther=other,
+                Clamp=clamp)
 
 
 def _mc(job):
@@ -39,13 +41,17 @@ def phase(chk: Check, tier: str, rng: random.Random):
         chk.note("network: the dyadic recipe is not exact on this platform (exp(-ln 2) != 0.5): phase skipped")
         return
     if quick:
-        mcs = [("a-s4", consts("a", 4, 2), 4), ("b-s3-ref2", consts("b", 3, 2, lrpost=2, lrpre=1, ref=2), 4)]
-        gens = [("g-a", consts("a", 3, 2)), ("g-b", consts("b", 3, 1, lrpost=2, lrpre=1, ref=2))]
+        mcs = [("a-s4", consts("a", 4, 2), 4), ("b-s3-ref2", consts("b", 3, 2, lrpost=2, lrpre=1, ref=2), 4),
+               ("b-s3-box", consts("b", 3, 2, lrpost=2, lrpre=1, clamp="box"), 4)]
+        gens = [("g-a", consts("a", 3, 2)), ("g-b", consts("b", 3, 1, lrpost=2, lrpre=1, ref=2)),
+                ("g-b-box", consts("b", 3, 2, lrpost=4, lrpre=1, clamp="box"))]
         budget = 1200
     else:
         mcs = [("a-s5", consts("a", 5, 2), 8), ("b-s5", consts("b", 5, 2, lrpost=2, lrpre=1), 8),
                ("a-s4-ref2-o3", consts("a", 4, 3, ref=2), 8)]
-        gens = [("g-a", consts("a", 4, 2)), ("g-b", consts("b", 4, 2, lrpost=2, lrpre=1, ref=2))]
+        mcs += [("b-s4-box", consts("b", 4, 3, lrpost=4, lrpre=1, clamp="box"), 8), ("a-s4-box", consts("a", 4, 2, clamp="box"), 8)]
+        gens = [("g-a", consts("a", 4, 2)), ("g-b", consts("b", 4, 2, lrpost=2, lrpre=1, ref=2)),
+                ("g-b-box", consts("b", 4, 2, lrpost=4, lrpre=1, clamp="box")), ("g-a-box", consts("a", 3, 2, clamp="box"))]
         budget = None
     ex = ThreadPoolExecutor(max_workers=4)
     gen_f = [ex.submit(_gen, j) for j in gens]
